@@ -1189,7 +1189,7 @@ func init() {
 			wantBag[i%5]++
 			wantBag[100] += 2
 		}
-		for round := 0; round < 2; round++ { // the monoid value is used for more than one fold
+		for round := 0; round < max(2, c.Delay); round++ { // the monoid value is used for more than one fold (Delay = number of folds)
 			var gt []*tally
 			var gb []map[int]int
 			if c.Par > 0 {
@@ -1228,6 +1228,12 @@ func progsInPlaceMonoid(t *testing.T, prop string, pars []int) {
 	for _, par := range pars {
 		for _, n := range []int{0, 1, 2, 3, par, par + 1, 10, 100} {
 			runProg(t, prop, &caseT{Stage: "prog/fold-in-place-monoid", Par: par, N: n})
+		}
+		if par >= 2 {
+			// many folds in a row: all workers see the input close at the same moment and hand their partial results
+			// over together, each accumulator is still combined exactly once
+			runProg(t, prop, &caseT{Stage: "prog/fold-in-place-monoid", Par: par, N: par + 1, Delay: common.Pick(400, 4000)})
+			runProg(t, prop, &caseT{Stage: "prog/fold-in-place-monoid", Par: par, N: 64, Delay: common.Pick(400, 4000)})
 		}
 	}
 }
